@@ -2,7 +2,8 @@
 PROP = "C17"
 LEVEL = "exploration"
 ENGINE = "pyvc+bounded"
-HARNESS_MODULES = []
+HARNESS_MODULES = ["contracts.c17_decoders", "contracts.c13_array_index"]
+EXTRA_HARNESSES = [("C13", "lemma_row_major")]   # lemma proved here too because grid_decoder_safety uses an instance of it
 
 
 def bounded(tier, seed, rep):
